@@ -47,6 +47,11 @@ func corpus() []Case {
 			Tar: []Ent{{Name: "a", Kind: "reg", Mode: 0o644, Mtime: 1, Data: seqBytes(12, 10)}, {Name: "b", Kind: "reg", Mode: 0o644, Mtime: 1, Data: seqBytes(7, 100)},
 				{Name: "c", Kind: "reg", Mode: 0o644, Mtime: 1, Data: seqBytes(5, 200)}},
 			Ops: []Op{{Op: "read", File: 0, Off: 6, Len: 3}, {Op: "read", File: 1, Off: 0, Len: 7}, {Op: "read", File: 2, Off: 0, Len: 9}, {Op: "read", File: 0, Off: 0, Len: 12}}},
+		// an empty file between two files of the first compression member (min-chunk-size + prioritized files)
+		{Kind: "serve", ChunkSize: 4, MinChunkSize: 5000, Workers: 1, Cache: "mem", Prioritized: []string{"a", "e", "c"},
+			Tar: []Ent{{Name: "a", Kind: "reg", Mode: 0o644, Mtime: 1, Data: seqBytes(5, 10)}, {Name: "e", Kind: "reg", Mode: 0o644, Mtime: 1},
+				{Name: "c", Kind: "reg", Mode: 0o644, Mtime: 1, Data: seqBytes(7, 200)}, {Name: "z", Kind: "reg", Mode: 0o644, Mtime: 1, Data: seqBytes(3, 50)}},
+			Ops: []Op{{Op: "read", File: 0, Off: 0, Len: 5}, {Op: "read", File: 1, Off: 0, Len: 7}, {Op: "read", File: 2, Off: 0, Len: 1}, {Op: "read", File: 3, Off: 0, Len: 3}, {Op: "prefetch"}, {Op: "read", File: 1, Off: 2, Len: 4}}},
 		// dangling hardlink: the layer is not servable
 		{Kind: "serve", ChunkSize: 4, Workers: 1, Cache: "mem", Tar: []Ent{{Name: "a", Kind: "hardlink", Link: "nope", Mtime: 1}}},
 		{Kind: "clean", Name: "../a/./b//c/../d/"},
